@@ -532,13 +532,32 @@ func init() {
 			return iface{}
 		},
 		"encoding/json.NewDecoder": func(i *interpreter, fr *frame, a []value) value {
+			if i.ps.jsonFactory != nil {
+				i.ps.jsonStream = call(i, fr, token.NoPos, i.ps.jsonFactory, []value{a[0]})
+				return zeroPtrOf(types.NewPointer(i.prog.ImportedPackage("encoding/json").Type("Decoder").Type()))
+			}
 			if i.ps.jsonDecode == nil {
 				return notHandled{}
 			}
 			i.ps.jsonReader = a[0]
 			return zeroPtrOf(types.NewPointer(i.prog.ImportedPackage("encoding/json").Type("Decoder").Type()))
 		},
+		"(*encoding/json.Decoder).Token": func(i *interpreter, fr *frame, a []value) value {
+			if i.ps.jsonStream == nil {
+				return notHandled{}
+			}
+			return i.callStream(fr, "Token")
+		},
+		"(*encoding/json.Decoder).More": func(i *interpreter, fr *frame, a []value) value {
+			if i.ps.jsonStream == nil {
+				return notHandled{}
+			}
+			return i.callStream(fr, "More")
+		},
 		"(*encoding/json.Decoder).Decode": func(i *interpreter, fr *frame, a []value) value {
+			if i.ps.jsonStream != nil {
+				return i.callStream(fr, "Decode", a[1])
+			}
 			if i.ps.jsonDecode == nil {
 				return notHandled{}
 			}
@@ -1142,4 +1161,15 @@ func (i *interpreter) sortSlice(fr *frame, x, less value) value {
 		}
 	}
 	return nil
+}
+
+// callStream invokes a method of the harness's JSON stream object (vx.ModelJSONStream).
+func (i *interpreter) callStream(fr *frame, name string, args ...value) value {
+	obj := i.ps.jsonStream.(iface)
+	sel := i.prog.MethodSets.MethodSet(obj.t).Lookup(nil, name)
+	if sel == nil {
+		panic("vx.ModelJSONStream: stream object has no method " + name)
+	}
+	fn := i.prog.MethodValue(sel)
+	return call(i, fr, token.NoPos, fn, append([]value{obj.v}, args...))
 }
